@@ -65,6 +65,7 @@ SCHEMA_FNS = [SP + n for n in ('basic_key', 'identifier', 'get_required', 'get_o
 PROPS = {
     'C01': {'functions': INFO_MATCH + MATCHER + LOADER_CFG, 'standin': True},
     'C02': {'functions': ['info.ValueInfo.convert', 'matcher.SchemaMatcher.__init__', 'matcher.SchemaMatcher.finish'] + MATCHER +
+            [CFG + 'start_section', CFG + 'end_section', CFG + 'parse', 'loader.ConfigLoader.endSection', 'loader.ConfigLoader.loadResource'] +
             ['info.BaseKeyInfo.prepare_raw_defaults', 'info.KeyInfo.computedefault', 'info.MultiKeyInfo.computedefault',
              'info.SchemaType.deriveSectionType', SP + 'get_name_info', SP + 'get_key_info'],
             'standin': True},
@@ -85,7 +86,7 @@ PROPS = {
     'C07': {'functions': CFG_ALL + ['substitution.substitute', 'substitution._split', 'info.ValueInfo.convert'] + CMDLINE + LOADER_CFG +
             [f for f in MATCHER if f.startswith('matcher.')] +
             ['loader.BaseLoader.openResource', 'loader.BaseLoader.loadURL', 'loader.BaseLoader.loadFile', 'loader.BaseLoader._raise_open_error',
-             'validator.main'],
+             'validator.main', 'loader._get_config_loader', 'loader.loadConfig', 'loader.loadConfigFile'],
             'standin': True},
     'C08': {'functions': [CFG + n for n in ('error', 'replace', 'handle_key_value', 'handle_define',
                                             'start_section', 'end_section', 'nextline')]
@@ -94,7 +95,11 @@ PROPS = {
         'functions': ['datatypes.RegularExpressionConversion.__call__', 'datatypes.BasicKeyConversion.__call__',
                       'datatypes.asBoolean', 'datatypes.integer', 'datatypes.RangeCheckedConversion.__call__',
                       'datatypes.SuffixMultiplier.__call__', 'datatypes.IpaddrOrHostname.__call__',
-                      'datatypes.InetAddress.__call__', 'datatypes.SocketAddress.__init__'],
+                      'datatypes.InetAddress.__call__', 'datatypes.SocketAddress.__init__',
+                      'datatypes.null_conversion', 'datatypes.string_list', 'datatypes.float_conversion',
+                      'datatypes.existing_directory', 'datatypes.existing_path', 'datatypes.existing_file',
+                      'datatypes.existing_dirpath', 'datatypes.MemoizedConversion.__init__',
+                      'datatypes.MemoizedConversion.__call__', 'datatypes.timedelta'],
         'rx': ['rx:datatypes.basic-key', 'rx:datatypes.identifier', 'rx:datatypes.dotted-name',
                'rx:datatypes.dotted-suffix', 'rx:datatypes.ipaddr-or-hostname'],
         'bind': ['bind:datatypes'],
@@ -117,7 +122,7 @@ PROPS = {
     # frame and ownership obligations of every function of a load that touches schema objects: the
     # modifies clauses name only matcher / loader state, results are fresh containers
     'C13': {'functions': INFO_MATCH + MATCHER + LOADER_CFG + ['info.createDerivedSchema'], 'standin': True},
-    'C14': {'functions': CMDLINE, 'standin': True},
+    'C14': {'functions': CMDLINE + ['loader._get_config_loader'], 'standin': True},
     'C15': {'functions': [CFG + n for n in ('_normalize_case', 'nextline', 'start_section', 'end_section',
                                             'parse', 'handle_define')] + ['matcher.BaseMatcher.addValue'],
             'standin': True},
@@ -131,7 +136,7 @@ PROPS = {
                           'schemaless.Context.startSection', 'schemaless.Context.endSection',
                           'schemaless.Context.includeConfiguration', 'schemaless.Parser.handle_define'], 'standin': True},
     'C18': {'functions': ['schema.SchemaParser.extendSchema', 'schema.SchemaParser.start_schema', SP + 'loadComponent', 'url.urlnormalize', 'url.urldefrag', 'url.urljoin', 'loader.BaseLoader.isPath', 'loader.BaseLoader.normalizeURL', 'loader._url_from_file',
-                          'loader.BaseLoader._raise_open_error', CFG + '__init__', CFG + 'handle_include'],
+                          'loader.BaseLoader._raise_open_error', CFG + '__init__', CFG + 'handle_include', 'schema.parseResource', 'schema.parseComponent'],
             'rx': ['rx:loader._pathsep_rx'], 'standin': True},
     'C19': {'functions': ['loader.Resource.__init__', 'loader.Resource.close', 'loader.Resource.__enter__',
                           'loader.Resource.__exit__', 'loader.BaseLoader.createResource',
@@ -139,7 +144,9 @@ PROPS = {
                           'loader.BaseLoader.loadURL', 'loader.BaseLoader.loadFile', 'loader.ConfigLoader.loadResource',
                           'loader.ConfigLoader.includeConfiguration', 'loader.ConfigLoader._parse_resource',
                           CFG + 'parse', CFG + 'handle_include', CFG + 'handle_import', CFG + 'handle_directive',
-                          'schema.SchemaParser.extendSchema', SP + 'loadComponent'],
+                          'schema.SchemaParser.extendSchema', SP + 'loadComponent', 'schema.parseResource', 'schema.parseComponent',
+                          'loader.SchemaLoader.__init__', 'loader.SchemaLoader.loadResource',
+                          'loader._get_config_loader', 'loader.loadConfig', 'loader.loadConfigFile'],
             'standin': True},
     'C20': {'functions': ['components.logger.datatypes.logging_level', 'components.logger.factory.Factory.__init__',
                           'components.logger.factory.Factory.__call__',
